@@ -371,6 +371,46 @@ def resume_window_cases(pid, seed, tier, *, K=(4, 10)):
         yield c
 
 
+def endless_wait_cases(pid, seed, tier, *, K=(3, 8)):
+    """The engine has been interrupted once already in this call (pause + resume, or a suspension and its release)
+    and is running again, blocked in the wait for a status that never finishes: abort / stop / halt from another
+    thread must still get through to that wait (the second cancellation of the same task in one call)."""
+    rng = gen.rng_for(pid, seed, "endless-wait")
+    specs = gen.gen_world(rng, motors=1, dets=1, flyers=0, p_async=0.2, pausable=0.0)
+    specs["sigS"] = {"kind": "signal", "initial": 0}
+    pg = gen.PlanGen(rng, specs)
+    S = pg.S
+    m = pg.motors[0]
+    g = pg.group()
+    body = [msg(S, "open_run"), msg(S, "checkpoint"), msg(S, "null"), msg(S, "sleep", None, 0.5), msg(S, "checkpoint"), msg(S, "set", m, 7.0, group=g), msg(S, "wait", None, group=g), msg(S, "null"), msg(S, "close_run")]
+    plan = [{"op": "try", "site": S(), "body": body, "finally": [msg(S, "null")]}]
+    for j in range(K[0] if tier == "quick" else K[1]):
+        c = {
+            "prop": pid,
+            "seed": seed,
+            "variant": f"endless-wait-{j}",
+            "sim": {"handle_cost": 0.0},
+            "re": {"record_interruptions": rng.random() < 0.3},
+            "devices": copy.deepcopy(specs),
+            "suspenders": {"s0": {"cls": "SuspendBoolHigh", "signal": "sigS", "kwargs": {"sleep": 0}}},
+            "script": [{"do": "install_suspender", "sus": "s0"}, {"do": "call", "plan": plan, "main": True}, {"do": "call", "plan": [msg(S, "null")], "tag": "followup-null"}],
+        }
+        for d_ in c["devices"].values():
+            d_.pop("faults", None)
+        c["devices"][m]["faults"] = {"set#0": {"kind": "never"}}
+        term = rng.choice(["abort", "stop", "halt"])
+        if rng.random() < 0.5:
+            c["script"][1]["inject"] = [{"id": "p0", "at": {"time": 0.2}, "do": "pause"}]
+            c["script"][1]["decisions"] = [{"do": "resume", "inject": [{"id": "t0", "at": {"time": rng.choice([1.0, 2.0])}, "do": term}]}]
+        else:
+            c["script"][1]["inject"] = [
+                {"id": "p0", "at": {"time": 0.2}, "do": "trip", "args": {"signal": "sigS", "value": 1, "release_value": 0, "after": 0.3}},
+                {"id": "t0", "at": {"time": rng.choice([2.0, 3.0])}, "do": term},
+            ]
+        c["script"][1]["settle"] = "idle"
+        yield c
+
+
 def engine_side_cases(rng, base, dv, k=2):
     """k extra cases per plan: one fault, alone, in a method the engine calls on its own account (clean-up,
     close_run, pause bookkeeping) at an occurrence the fault-free run reached."""
